@@ -72,7 +72,10 @@ def model_requests(chk, reqs, name, doc):
 
     from odfdo.container import pretty_indent
 
+    present = set(doc.parts)
     for part_name in XML_PARTS:
+        if part_name not in present:
+            continue          # an optional part the package does not have
         try:
             part = doc.get_part(part_name)
         except Exception:  # noqa: BLE001
@@ -254,7 +257,10 @@ def show(entry) -> str:
 def memory(doc) -> dict:
     """serialisation of the parsed parts, generator stamp neutralised"""
     out = {}
+    present = set(doc.parts)
     for name in XML_PARTS:
+        if name not in present:
+            continue          # an optional part the package does not have (settings.xml)
         try:
             part = doc.get_part(name)
         except Exception:  # noqa: BLE001
@@ -406,6 +412,39 @@ def generated_picture_doc(rng):
     return doc
 
 
+def stripped_doc(rng, tmp: Path):
+    """a sample or template whose package lacks a random selection of the parts ODF makes optional (settings.xml, the thumbnail,
+    manifest.rdf, the Configurations2 tree), with their manifest entries: opened from memory or from a file"""
+    import zipfile
+
+    from lxml import etree
+    from odfdo import Document
+
+    src = rng.choice([p for p in sample_paths() if p.suffix in (".odt", ".ods", ".odp", ".odg")])
+    optional = ["settings.xml", "Thumbnails/", "manifest.rdf", "Configurations2/"]
+    drop = ["settings.xml"] + [o for o in optional[1:] if rng.random() < 0.4] if rng.random() < 0.8 else rng.sample(optional, 2)
+    gone = lambda n: any(n == d or (d.endswith("/") and n.startswith(d)) for d in drop)  # noqa: E731
+    out = io.BytesIO()
+    mns = "{urn:oasis:names:tc:opendocument:xmlns:manifest:1.0}"
+    with zipfile.ZipFile(src) as z, zipfile.ZipFile(out, "w") as w:
+        for i in z.infolist():
+            if gone(i.filename):
+                continue
+            data = z.read(i.filename)
+            if i.filename == "META-INF/manifest.xml":
+                root = etree.fromstring(data)
+                for e in list(root.iter(mns + "file-entry")):
+                    if gone(e.get(mns + "full-path")):
+                        root.remove(e)
+                data = etree.tostring(root, xml_declaration=True, encoding="UTF-8")
+            w.writestr(i, data)
+    if rng.random() < 0.5:
+        return Document(io.BytesIO(out.getvalue()))
+    f = tmp / f"stripped-{rng.randrange(10**9)}{src.suffix}"
+    f.write_bytes(out.getvalue())
+    return Document(f)
+
+
 def save_as(doc, packaging, pretty, tmp: Path):
     """returns ('zip'|'folder'|'xml', bytes or path)"""
     if packaging == "zip":
@@ -500,7 +539,7 @@ def run(chk: core.Check) -> None:
 
     rng = chk.rng
     chk.rule = (
-        "documents: every sample and template of the repository + generated text documents (paragraph / heading layouts of nested spans, links, text:s, tab, "
+        "documents: every sample and template of the repository + the same with a selection of the parts ODF makes optional removed from the package (settings.xml, thumbnail, manifest.rdf, Configurations2; opened from memory or from a file) + generated text documents (paragraph / heading layouts of nested spans, links, text:s, tab, "
         "line-break, bookmarks, notes, frames in every adjacency, a fifth with raw white-space runs) + generated text documents and presentations with 1..3 "
         "pictures, each added once to the package (Document.add_file from a file object or a path) and shown by 1..3 image frames in interleaved order "
         "(a logo on several pages / in several paragraphs), now and then an http picture and a text frame x pretty in {False, True} x packaging in "
@@ -530,6 +569,9 @@ def run(chk: core.Check) -> None:
         for i in range(chk.n(12, 150)):
             seed = rng.randrange(10**9)
             gens.append((f"pictures#{seed}", (lambda seed=seed: generated_picture_doc(__import__("random").Random(seed)))))
+        for i in range(chk.n(10, 80)):
+            seed = rng.randrange(10**9)
+            gens.append((f"without-optional-parts#{seed}", (lambda seed=seed: stripped_doc(__import__("random").Random(seed), tmp))))
         reqs: list = []
         for name, mk in docs + gens:
             one_document(chk, rng, name, mk, tmp)
